@@ -345,6 +345,9 @@ func cmdCheck(args []string) int {
 		baseTO, floatTO, agree = 120, 900, 2
 	}
 	timeoutFor := func(o *Obligation) int {
+		if o.Cover {
+			return 5
+		}
 		if strings.Contains(o.Goal.S, "fp.") || strings.Contains(o.PC.S, "fp.") || o.Kind == "float" {
 			return floatTO
 		}
